@@ -324,6 +324,41 @@ def run(ctx):
                 ctx.nontrivial_count += 1
             if bad:
                 ctx.violation(bad[0], bad[1], c)
+    # ---- the smallest system (one atom) through every format, and a dump file read back WITHOUT the writer's column table
+    #      (columns recognised from the ITEM: ATOMS header) in several unit styles
+    import io as _io
+    import atomman as am
+    import atomman.unitconvert as uc
+    A_ = lambda x, u: uc.set_in_units(np.array(x, dtype=float), u)
+    Vt = A_([[4.0, 0, 0], [1.0, 5.0, 0], [0.5, -1.0, 6.0]], 'angstrom')
+    one = am.System(atoms=am.Atoms(atype=[1], pos=A_([[1.25, 2.5, 0.75]], 'angstrom')), box=am.Box(vects=Vt), pbc=[True, True, True], symbols=['Al'])
+    for fmt_, mk in (('poscar', lambda: am.load('poscar', one.dump('poscar'))),
+                     ('poscar[cartesian]', lambda: am.load('poscar', one.dump('poscar', coordstyle='cartesian', box_scale=2.0))),
+                     ('atom_data', lambda: am.load('atom_data', one.dump('atom_data', return_info=False, safecopy=True))),
+                     ('atom_dump', lambda: am.load('atom_dump', _io.BytesIO(one.dump('atom_dump').encode()))),
+                     ('table', lambda: (lambda tp: am.load('table', tp[0], box=one.box, prop_info=tp[1]))(one.dump('table', prop_name=['atype', 'pos'], return_prop_info=True)))):
+        ctx.count()
+        ctx.nontriv(('one-atom', fmt_))
+        try:
+            l1 = mk()
+            if l1.natoms != 1 or np.shape(l1.atoms.pos) != (1, 3) or not np.allclose(l1.atoms.pos, one.atoms.pos, rtol=0, atol=1e-9) or int(l1.atoms.atype[0]) != 1:
+                ctx.violation('%s: a one-atom system is not read back' % fmt_, 'natoms %d pos %s' % (l1.natoms, np.asarray(l1.atoms.pos).tolist()))
+        except Exception as e:
+            ctx.violation('%s: load raised %s for a one-atom system' % (fmt_, excname(e)), repr(e)[:200])
+    four = am.System(atoms=am.Atoms(atype=[1, 2, 2, 1], pos=A_([[1, 1, 1], [2, 3, 4], [3.5, 0.5, 2], [0.25, 4, 5]], 'angstrom'),
+                                    velocity=A_([[0.5, 0, 1], [1, 2, 3], [-1, 0, 0.25], [0.125, -2, 4]], 'angstrom/ps'), charge=A_([0.5, -0.5, 0.25, -0.25], 'e')),
+                     box=am.Box(vects=Vt), pbc=[True, True, True])
+    for un_ in ('metal', 'real', 'si', 'nano'):
+        ctx.count()
+        ctx.nontriv(('dump-header-columns', un_))
+        try:
+            txt_ = four.dump('atom_dump', lammps_units=un_, prop_name=['atom_id', 'atype', 'pos', 'velocity', 'charge'], float_format='%.13e')
+            l4 = am.load('atom_dump', txt_, lammps_units=un_)
+            bad_ = [k_ for k_ in ('pos', 'velocity', 'charge') if k_ not in l4.atoms.prop() or not np.allclose(l4.atoms.view[k_], four.atoms.view[k_], rtol=1e-9, atol=1e-12)]
+            if bad_ or not np.allclose(l4.box.vects, four.box.vects, rtol=1e-9):
+                ctx.violation('atom_dump read from its header columns: unit conversion not undone', 'units %s: %s' % (un_, bad_ or 'cell'))
+        except Exception as e:
+            ctx.violation('atom_dump read from its header columns raised %s' % excname(e), 'units %s %s' % (un_, repr(e)[:200]))
     from .. import umbrella
     import atomman as _am
     umbrella.run(ctx, _am, 'C08')      # cross-module histories of spec/Atomman.tla (only the steps this property owns are reported here)
